@@ -1,35 +1,1438 @@
-use plonky2::field::polynomial::PolynomialCoeffs;
-use plonky2::field::types::Field;
+//! C15 — transforms and polynomial algebra agree with their definitions.
+//! `c15-record`: operation log of the real FFT / polynomial / permutation code with the step
+//! witnesses (Horner partial sums, convolution partial sums, partial products) that TLC needs to
+//! check every event flat against spec/PolyOps.tla (via spec/PolyLogTrace.tla).
+//! `c15-bulk`: the real code against a naive u128 reference and cross-option equality on many
+//! sizes; a sample of the reference's own operations is logged for TLC (spec/OpLogTrace.tla).
+use plonky2::field::cosets::get_unique_coset_shifts;
+use plonky2::field::fft::{fft_root_table, fft_with_options, ifft_with_options, FftRootTable};
+use plonky2::field::interpolation::{barycentric_weights, interpolant, interpolate};
+use plonky2::field::packable::Packable;
+use plonky2::field::packed::PackedField;
+use plonky2::field::polynomial::{PolynomialCoeffs, PolynomialValues};
+use plonky2::field::types::{Field, PrimeField64};
+use plonky2::field::zero_poly_coset::ZeroPolyOnCoset;
+use plonky2::util::{bits_u64, log2_ceil, log2_strict, log_floor, reverse_index_bits, reverse_index_bits_in_place, transpose};
+use rand::Rng;
+use rand_chacha::ChaCha8Rng;
+use serde_json::{json, Value};
+
 use vh::util::*;
 
-fn main() -> std::process::ExitCode {
-    vh::util::run_main(|cmd, _rest| match cmd {
-        "probe" => {
-            let h = PolynomialCoeffs::new(vec![fc(1), fc(0), fc(0), fc(0), fc(5)]);
-            for n in [5usize, 8, 9, 12, 16] {
-                let r = guarded(|| h.inv_mod_xn(n));
-                println!("inv_mod_xn n={} -> {:?}", n, r.map(|p| p.coeffs.iter().map(|x| canon(*x)).collect::<Vec<_>>()));
-            }
-            let b = PolynomialCoeffs::new(vec![fc(5), fc(0), fc(0), fc(0), fc(1)]);
-            for da in [8usize, 11, 12, 13, 16] {
-                let a = PolynomialCoeffs::new((0..=da).map(|i| fc(i as u64 + 1)).collect());
-                let r = guarded(|| a.div_rem(&b));
-                println!("div_rem deg a={} -> {:?}", da, r.map(|(q, r)| (q.coeffs.iter().map(|x| canon(*x)).collect::<Vec<_>>(), r.coeffs.iter().map(|x| canon(*x)).collect::<Vec<_>>())));
-                let r = guarded(|| a.div_rem_long_division(&b));
-                println!("long    deg a={} -> {:?}", da, r.map(|(q, r)| (q.coeffs.iter().map(|x| canon(*x)).collect::<Vec<_>>(), r.coeffs.iter().map(|x| canon(*x)).collect::<Vec<_>>())));
-            }
-            let show = |p: &PolynomialCoeffs<F>| p.coeffs.iter().map(|x| canon(*x)).collect::<Vec<_>>();
-            // quotient with zero constant term: a = x * b
-            let b = PolynomialCoeffs::new(vec![fc(1), fc(1), fc(1)]);
-            let a = PolynomialCoeffs::new(vec![fc(0), fc(1), fc(1), fc(1)]);
-            println!("x*b / b: {:?}", guarded(|| a.div_rem(&b)).map(|(q, r)| (show(&q), show(&r))));
-            println!("long   : {:?}", guarded(|| a.div_rem_long_division(&b)).map(|(q, r)| (show(&q), show(&r))));
-            let b = PolynomialCoeffs::new(vec![fc(5), fc(0), fc(1)]);
-            let a = PolynomialCoeffs::new((0..7).map(|i| fc(i as u64 + 1)).collect());
-            println!("deg6 / x^2+5: {:?}", guarded(|| a.div_rem(&b)).map(|(q, r)| (show(&q), show(&r))));
-            println!("long        : {:?}", guarded(|| a.div_rem_long_division(&b)).map(|(q, r)| (show(&q), show(&r))));
-            Ok(())
+// ---- independent reference (plain u128 arithmetic and %) ----------------------------------
+fn r_add(a: u64, b: u64) -> u64 {
+    (((a % P) as u128 + (b % P) as u128) % P as u128) as u64
+}
+fn r_sub(a: u64, b: u64) -> u64 {
+    (((a % P) as u128 + P as u128 - (b % P) as u128) % P as u128) as u64
+}
+fn r_mul(a: u64, b: u64) -> u64 {
+    (((a % P) as u128 * (b % P) as u128) % P as u128) as u64
+}
+fn r_pow(a: u64, mut e: u64) -> u64 {
+    let mut base = a % P;
+    let mut acc = 1u64;
+    while e > 0 {
+        if e & 1 == 1 {
+            acc = r_mul(acc, base);
         }
+        base = r_mul(base, base);
+        e >>= 1;
+    }
+    acc
+}
+fn r_inv(a: u64) -> u64 {
+    r_pow(a, P - 2)
+}
+/// Horner partial sums: acc[0] = 0, acc[i+1] = acc[i] * x + c[m-1-i]  (canonical)
+fn horner_chain(c: &[u64], x: u64) -> Vec<u64> {
+    let mut acc = Vec::with_capacity(c.len() + 1);
+    acc.push(0u64);
+    let mut cur = 0u64;
+    for &ci in c.iter().rev() {
+        cur = r_add(r_mul(cur, x), ci);
+        acc.push(cur);
+    }
+    acc
+}
+fn r_eval(c: &[u64], x: u64) -> u64 {
+    c.iter().rev().fold(0u64, |acc, &ci| r_add(r_mul(acc, x), ci))
+}
+/// partial sums of coefficient k of a*b (the order PolyOps.ConvCoefOk prescribes)
+fn conv_chain(a: &[u64], b: &[u64], k: usize) -> Vec<u64> {
+    let mut acc = vec![0u64];
+    if a.is_empty() || b.is_empty() {
+        return acc;
+    }
+    let lo = k.saturating_sub(b.len() - 1);
+    let hi = k.min(a.len() - 1);
+    let mut cur = 0u64;
+    let mut i = lo;
+    while i <= hi {
+        cur = r_add(cur, r_mul(a[i], b[k - i]));
+        acc.push(cur);
+        i += 1;
+    }
+    acc
+}
+fn r_polymul(a: &[u64], b: &[u64]) -> Vec<u64> {
+    if a.is_empty() || b.is_empty() {
+        return vec![];
+    }
+    let mut out = vec![0u64; a.len() + b.len() - 1];
+    for (i, &x) in a.iter().enumerate() {
+        if x % P == 0 {
+            continue;
+        }
+        for (j, &y) in b.iter().enumerate() {
+            out[i + j] = r_add(out[i + j], r_mul(x, y));
+        }
+    }
+    out
+}
+fn r_deg1(c: &[u64]) -> usize {
+    (0..c.len()).rev().find(|&i| c[i] % P != 0).map_or(0, |i| i + 1)
+}
+/// schoolbook long division on canonical coefficients: (q, r), b != 0
+fn r_divrem(a: &[u64], b: &[u64]) -> (Vec<u64>, Vec<u64>) {
+    let db = r_deg1(b);
+    let da = r_deg1(a);
+    let mut r: Vec<u64> = a[..da].iter().map(|x| x % P).collect();
+    if da < db {
+        return (vec![], r);
+    }
+    let mut q = vec![0u64; da - db + 1];
+    let linv = r_inv(b[db - 1]);
+    for i in (0..=(da - db)).rev() {
+        let coef = r_mul(r[i + db - 1], linv);
+        q[i] = coef;
+        for j in 0..db {
+            r[i + j] = r_sub(r[i + j], r_mul(coef, b[j]));
+        }
+    }
+    r.truncate(db - 1);
+    (q, r)
+}
+/// inverse power series of a modulo X^n (a[0] != 0)
+fn r_invmod(a: &[u64], n: usize) -> Vec<u64> {
+    let a0i = r_inv(a[0]);
+    let mut b = vec![0u64; n];
+    b[0] = a0i;
+    for k in 1..n {
+        let mut s = 0u64;
+        for i in 1..=k.min(a.len() - 1) {
+            s = r_add(s, r_mul(a[i], b[k - i]));
+        }
+        b[k] = r_mul(r_sub(0, s), a0i);
+    }
+    b
+}
+/// square-and-multiply witness of w^k: (bits msb first, squares, steps)
+fn pow_chain(w: u64, k: u64) -> Value {
+    let nb = (64 - k.leading_zeros()).max(1) as usize;
+    let bits: Vec<u8> = (0..nb).rev().map(|i| ((k >> i) & 1) as u8).collect();
+    let mut st = vec![1u64];
+    let mut sq = vec![];
+    for &b in &bits {
+        let s = r_mul(*st.last().unwrap(), *st.last().unwrap());
+        sq.push(s);
+        st.push(if b == 1 { r_mul(s, w) } else { s });
+    }
+    json!({"bits": bits, "sq": lv(&sq), "st": lv(&st)})
+}
+/// x, x^2, x^4, ..., x^(2^lg)
+fn sq_chain(x: u64, lg: usize) -> Vec<u64> {
+    let mut ch = vec![x % P];
+    for _ in 0..lg {
+        ch.push(r_mul(*ch.last().unwrap(), *ch.last().unwrap()));
+    }
+    ch
+}
+fn rev_bits(i: usize, bits: usize) -> usize {
+    let mut r = 0usize;
+    for b in 0..bits {
+        if (i >> b) & 1 == 1 {
+            r |= 1 << (bits - 1 - b);
+        }
+    }
+    r
+}
+
+// ---- encoding helpers ----------------------------------------------------------------------
+fn lv(xs: &[u64]) -> Value {
+    Value::Array(xs.iter().map(|x| limbs(*x)).collect())
+}
+fn lvv(xs: &[Vec<u64>]) -> Value {
+    Value::Array(xs.iter().map(|x| lv(x)).collect())
+}
+fn raw(xs: &[F]) -> Vec<u64> {
+    xs.iter().map(|x| x.to_noncanonical_u64()).collect()
+}
+fn can(xs: &[u64]) -> Vec<u64> {
+    xs.iter().map(|x| x % P).collect()
+}
+fn fv(xs: &[u64]) -> Vec<F> {
+    xs.iter().map(|x| f(*x)).collect()
+}
+fn eqv(a: &[u64], b: &[u64]) -> bool {
+    a.len() == b.len() && a.iter().zip(b).all(|(x, y)| x % P == y % P)
+}
+/// polynomial equality (missing high coefficients are zero)
+fn eqpoly(a: &[u64], b: &[u64]) -> bool {
+    let n = a.len().max(b.len());
+    (0..n).all(|i| a.get(i).copied().unwrap_or(0) % P == b.get(i).copied().unwrap_or(0) % P)
+}
+/// trimmed little-endian bytes of a natural
+fn nat_bytes(x: u128) -> Value {
+    let mut v: Vec<u8> = x.to_le_bytes().to_vec();
+    while v.last() == Some(&0) {
+        v.pop();
+    }
+    json!(v)
+}
+/// a field value of a given class: random canonical, boundary, non-canonical representation
+fn gen_val(r: &mut ChaCha8Rng, class: usize) -> u64 {
+    match class % 8 {
+        0 | 1 | 2 | 3 => r.gen::<u64>() % P,
+        4 => [0u64, 1, 2, P - 1, P - 2, 0xFFFF_FFFF, 1 << 32][r.gen_range(0..7)],
+        5 => r.gen::<u64>() | 0xFFFF_FFFF_0000_0000, // often >= P: non-canonical
+        6 => [P, P + 1, u64::MAX, u64::MAX - 1][r.gen_range(0..4)],
+        _ => r.gen::<u64>() >> r.gen_range(0..64),
+    }
+}
+fn gen_vec(r: &mut ChaCha8Rng, n: usize, salt: usize) -> Vec<u64> {
+    (0..n).map(|i| gen_val(r, i * 7 + salt)).collect()
+}
+fn root(lg: usize) -> u64 {
+    canon(F::primitive_root_of_unity(lg))
+}
+fn sample_ks(r: &mut ChaCha8Rng, n: usize, full_n: usize, s: usize) -> Vec<usize> {
+    if n <= full_n {
+        return (0..n).collect();
+    }
+    let mut ks = if s >= 4 { vec![0usize, 1, n / 2, n - 1] } else { vec![r.gen_range(1..n)] };
+    while ks.len() < s.max(1) {
+        let k = r.gen_range(0..n);
+        if !ks.contains(&k) {
+            ks.push(k);
+        }
+    }
+    ks.truncate(s.max(1));
+    ks
+}
+
+struct Rec {
+    log: NdJson,
+    cost: u64, // model multiplications the events will cost TLC
+    panics: u64,
+}
+impl Rec {
+    fn put(&mut self, v: Value) {
+        self.log.put(&v);
+    }
+    /// ys[t] must equal c(shift * w^k), w = primitive_root_of_unity(lg); c: raw coefficients
+    fn evalpt(&mut self, what: &str, lg: usize, k: usize, shift: u64, fs: bool, c: &[u64], maxlen: usize, ys: &[u64], note: Value) {
+        let w = root(lg);
+        let wk = r_pow(w, k as u64);
+        let x = r_mul(shift, wk);
+        let acc = horner_chain(c, x);
+        self.cost += c.len() as u64 + 40;
+        self.put(json!({"op": "evalpt", "what": what, "lg": lg, "k": k, "w": limbs(w), "pc": pow_chain(w, k as u64), "wk": limbs(wk), "shift": limbs(shift),
+                        "fs": fs, "x": limbs(x), "c": lv(c), "maxlen": maxlen, "acc": lv(&acc), "ys": lv(ys), "note": note}));
+    }
+    fn same(&mut self, what: &str, a: &[u64], b: &[u64], note: Value) {
+        self.cost += a.len() as u64 / 8 + 1;
+        self.put(json!({"op": "same", "what": what, "a": lv(a), "b": lv(b), "note": note}));
+    }
+    /// two results that must be equal: full vectors for small sizes, the differing window otherwise
+    fn must_equal(&mut self, what: &str, a: &[u64], b: &[u64], note: Value) {
+        if eqv(a, b) {
+            if a.len() <= 32 {
+                self.same(what, a, b, note);
+            }
+        } else if a.len() != b.len() {
+            self.same(what, &a[..a.len().min(8)], &b[..b.len().min(9).min(b.len())], note);
+        } else {
+            let i = (0..a.len()).find(|&i| a[i] % P != b[i] % P).unwrap();
+            let hi = (i + 4).min(a.len());
+            self.same(what, &a[i..hi], &b[i..hi], json!({"first_diff": i, "note": note}));
+        }
+    }
+    fn panic(&mut self, what: &str, expected: bool, msg: &str, note: Value) {
+        self.panics += 1;
+        self.put(json!({"op": "panic", "in": what, "expected": expected, "msg": msg, "note": note}));
+    }
+}
+
+fn zf_name(z: Option<usize>) -> String {
+    match z {
+        None => "none".into(),
+        Some(r) => format!("{r}"),
+    }
+}
+/// admissible zero_factor options for an input whose last 1 - 2^-r entries are zero
+fn zf_variants(r: usize, all: bool) -> Vec<Option<usize>> {
+    let mut v = vec![None, Some(0)];
+    if all {
+        for i in 1..=r {
+            v.push(Some(i));
+        }
+    } else if r > 0 {
+        v.push(Some(r));
+        if r > 1 {
+            v.push(Some(r / 2));
+        }
+    }
+    v
+}
+
+// =============================================================================================
+// record: section 1 — transforms
+// =============================================================================================
+fn table_for(n: usize) -> FftRootTable<F> {
+    fft_root_table::<F>(n)
+}
+
+fn rec_transforms(rc: &mut Rec, r: &mut ChaCha8Rng, lg_max: usize, full_n: usize, s: usize, thorough: bool) {
+    for lg in 0..=lg_max {
+        let n = 1usize << lg;
+        let table = table_for(n);
+        for zr in 0..=lg {
+            let m = n >> zr;
+            let mut input = gen_vec(r, m, lg * 31 + zr);
+            if m >= 1 && zr == lg && lg > 0 {
+                input[0] = P - 1 - (lg as u64); // single non-zero entry
+            }
+            let mut full = input.clone();
+            full.resize(n, 0);
+            let all = lg <= 6 || thorough;
+            // ---------------- forward transform, all admissible option settings
+            let mut outs: Vec<(String, Vec<u64>)> = vec![];
+            for zf in zf_variants(zr, all) {
+                for tb in [false, true] {
+                    let name = format!("zf={},table={}", zf_name(zf), tb as u8);
+                    let inp = PolynomialCoeffs::new(fv(&full));
+                    match guarded(|| fft_with_options(inp, zf, if tb { Some(&table) } else { None })) {
+                        Ok(v) => outs.push((name, raw(&v.values))),
+                        Err(msg) => rc.panic("fft_with_options", false, &msg, json!({"lg": lg, "r": zr, "variant": name})),
+                    }
+                }
+            }
+            if outs.is_empty() {
+                continue;
+            }
+            let note = json!({"r": zr, "variants": outs.iter().map(|o| o.0.clone()).collect::<Vec<_>>()});
+            for (name, o) in outs.iter().skip(1) {
+                rc.must_equal("fft-options", &outs[0].1, o, json!({"lg": lg, "r": zr, "a": outs[0].0, "b": name}));
+            }
+            let s = if !thorough && n > 1024 { 2 } else { s };
+            let ks = sample_ks(r, n, full_n, if zr == 0 { s } else { (s / 2).max(1) });
+            for &k in &ks {
+                let ys: Vec<u64> = outs.iter().map(|o| o.1[k]).collect();
+                rc.evalpt("fft", lg, k, 1, false, &input, n, &ys, note.clone());
+            }
+            // ---------------- inverse transform of the same vector read as values
+            let mut iouts: Vec<(String, Vec<u64>)> = vec![];
+            for zf in zf_variants(zr, all && lg <= 4) {
+                for tb in [false, true] {
+                    let name = format!("zf={},table={}", zf_name(zf), tb as u8);
+                    let inp = PolynomialValues::new(fv(&full));
+                    match guarded(|| ifft_with_options(inp, zf, if tb { Some(&table) } else { None })) {
+                        Ok(v) => iouts.push((name, raw(&v.coeffs))),
+                        Err(msg) => rc.panic("ifft_with_options", false, &msg, json!({"lg": lg, "r": zr, "variant": name})),
+                    }
+                }
+            }
+            if iouts.is_empty() {
+                continue;
+            }
+            for (name, o) in iouts.iter().skip(1) {
+                rc.must_equal("ifft-options", &iouts[0].1, o, json!({"lg": lg, "r": zr, "a": iouts[0].0, "b": name}));
+            }
+            // the inverse returns the coefficients whose evaluations are the input
+            let iks = sample_ks(r, n, full_n, if zr == 0 { if !thorough && n > 1024 { 1 } else { s } } else if n <= 256 { 2 } else { 1 });
+            let skip = !thorough && lg > 8 && !(zr == 0 || zr == lg || (zr == 1 && lg <= 10));
+            for &k in iks.iter().filter(|_| !skip) {
+                rc.evalpt("ifft", lg, k, 1, false, &iouts[0].1, n, &[full[k]], json!({"r": zr, "variant": iouts[0].0}));
+            }
+        }
+        // ---------------- coset variants, every shift class
+        let wn = root(lg);
+        let rnd = r.gen::<u64>() % P;
+        let classes: Vec<(&str, u64)> = vec![
+            ("one", 1),
+            ("field_shift", canon(F::coset_shift())),
+            ("in_subgroup", if lg > 0 { wn } else { 1 }),
+            ("random", rnd.max(2)),
+            ("minus_one", P - 1),
+            ("noncanonical", (rnd % 0xFFFF_FFFF).max(2) + P),
+            ("zero", 0),
+        ];
+        let pick: Vec<usize> = if lg <= 5 || thorough { (0..classes.len()).collect() } else if lg <= 10 { vec![1, 3 + (lg % 3), (lg % 2) * 6] } else { vec![1 + 2 * (lg % 2), 4 + (lg % 2)] };
+        for ci in pick {
+            let (cname, shift) = classes[ci];
+            let zr = if lg >= 2 && ci % 2 == 1 { 1 + (lg + ci) % (lg.min(3)) } else { 0 };
+            let m = n >> zr;
+            let input = gen_vec(r, m, lg * 17 + ci);
+            let mut full = input.clone();
+            full.resize(n, 0);
+            let poly = PolynomialCoeffs::new(fv(&full));
+            let mut outs: Vec<(String, Vec<u64>)> = vec![];
+            match guarded(|| poly.coset_fft(f(shift))) {
+                Ok(v) => outs.push(("coset_fft".into(), raw(&v.values))),
+                Err(msg) => rc.panic("coset_fft", false, &msg, json!({"lg": lg, "shift": cname})),
+            }
+            for zf in zf_variants(zr, false) {
+                for tb in [false, true] {
+                    let name = format!("zf={},table={}", zf_name(zf), tb as u8);
+                    match guarded(|| poly.coset_fft_with_options(f(shift), zf, if tb { Some(&table) } else { None })) {
+                        Ok(v) => outs.push((name, raw(&v.values))),
+                        Err(msg) => rc.panic("coset_fft_with_options", false, &msg, json!({"lg": lg, "shift": cname, "variant": name})),
+                    }
+                }
+            }
+            if outs.is_empty() {
+                continue;
+            }
+            for (name, o) in outs.iter().skip(1) {
+                rc.must_equal("coset-fft-options", &outs[0].1, o, json!({"lg": lg, "shift": cname, "a": outs[0].0, "b": name}));
+            }
+            let ks = sample_ks(r, n, full_n, if !thorough && n > 1024 { 1 } else { (s / 2).max(2) });
+            for &k in &ks {
+                let ys: Vec<u64> = outs.iter().map(|o| o.1[k]).collect();
+                rc.evalpt("coset_fft", lg, k, shift, false, &input, n, &ys, json!({"shift": cname, "r": zr}));
+            }
+            // inverse on the coset (shift must be invertible)
+            if shift % P != 0 {
+                let vals = gen_vec(r, n, lg * 13 + ci);
+                match guarded(|| PolynomialValues::new(fv(&vals)).coset_ifft(f(shift))) {
+                    Ok(c) => {
+                        let c = raw(&c.coeffs);
+                        let iks = sample_ks(r, n, full_n.min(8), if !thorough && n > 1024 { 1 } else { 2 });
+                        for &k in &iks {
+                            rc.evalpt("coset_ifft", lg, k, shift, false, &c, n, &[vals[k]], json!({"shift": cname}));
+                        }
+                        // and it inverts the forward coset transform
+                        if let Ok(back) = guarded(|| PolynomialCoeffs::new(fv(&c)).coset_fft(f(shift))) {
+                            rc.must_equal("coset-roundtrip", &vals, &raw(&back.values), json!({"lg": lg, "shift": cname}));
+                        }
+                    }
+                    Err(msg) => rc.panic("coset_ifft", false, &msg, json!({"lg": lg, "shift": cname})),
+                }
+            }
+        }
+    }
+    // ---------------- low-degree extension of values (subgroup and coset)
+    let fshift = canon(F::coset_shift());
+    for lg in 0..=lg_max.min(9) {
+        let n = 1usize << lg;
+        for rb in 0..=3usize {
+            if lg + rb > lg_max || (lg > 6 && rb > 1 && !thorough) {
+                continue;
+            }
+            let vals = gen_vec(r, n, lg * 5 + rb);
+            // witness polynomial: the real inverse transform (checked against `vals` below)
+            let wit = match guarded(|| PolynomialValues::new(fv(&vals)).ifft()) {
+                Ok(c) => raw(&c.coeffs),
+                Err(msg) => {
+                    rc.panic("ifft", false, &msg, json!({"lg": lg}));
+                    continue;
+                }
+            };
+            let big = n << rb;
+            for (what, coset) in [("lde", false), ("lde_onto_coset", true)] {
+                let out = guarded(|| {
+                    let pv = PolynomialValues::new(fv(&vals));
+                    if coset {
+                        pv.lde_onto_coset(rb)
+                    } else {
+                        pv.lde(rb)
+                    }
+                });
+                match out {
+                    Ok(o) => {
+                        let o = raw(&o.values);
+                        if o.len() != big {
+                            rc.same(what, &[o.len() as u64], &[big as u64], json!({"lg": lg, "rb": rb, "what": "length"}));
+                            continue;
+                        }
+                        for &k in &sample_ks(r, n, full_n.min(8), if thorough || (rb == 1 && !coset) { 2 } else { 1 }) {
+                            rc.evalpt("lde_in", lg, k, 1, false, &wit, n, &[vals[k]], json!({"rb": rb}));
+                        }
+                        for &k in &sample_ks(r, big, full_n, (s / 2).max(2)) {
+                            rc.evalpt(what, lg + rb, k, if coset { fshift } else { 1 }, coset, &wit, n, &[o[k]], json!({"lg": lg, "rb": rb}));
+                        }
+                    }
+                    Err(msg) => rc.panic(what, false, &msg, json!({"lg": lg, "rb": rb})),
+                }
+            }
+            // PolynomialCoeffs::lde pads with zeros
+            let c = PolynomialCoeffs::new(fv(&vals));
+            if let Ok(o) = guarded(|| c.lde(rb)) {
+                rc.put(json!({"op": "pad", "what": "coeffs.lde", "c": lv(&vals), "out": lv(&raw(&o.coeffs)), "len": big}));
+            }
+        }
+    }
+}
+
+// =============================================================================================
+// record: section 2 — polynomial algebra
+// =============================================================================================
+fn accs_for(a: &[u64], b: &[u64], kk: usize) -> Vec<Vec<u64>> {
+    (0..kk).map(|k| conv_chain(a, b, k)).collect()
+}
+
+/// operands of the degenerate-case split: (family, a, b)
+fn div_cases(r: &mut ChaCha8Rng, thorough: bool) -> Vec<(String, Vec<u64>, Vec<u64>)> {
+    let mut v: Vec<(String, Vec<u64>, Vec<u64>)> = vec![];
+    let rv = |r: &mut ChaCha8Rng, n: usize| -> Vec<u64> {
+        let mut x = gen_vec(r, n, n);
+        if n > 0 && x[n - 1] % P == 0 {
+            x[n - 1] = 3;
+        }
+        if n > 0 && x[0] % P == 0 {
+            x[0] = 5;
+        }
+        x
+    };
+    v.push(("a_empty".into(), vec![], rv(r, 3)));
+    v.push(("a_zero".into(), vec![0, 0, P], rv(r, 2)));
+    v.push(("b_zero".into(), rv(r, 4), vec![0, P]));
+    v.push(("b_empty".into(), rv(r, 4), vec![]));
+    v.push(("deg_a_lt_deg_b".into(), rv(r, 3), rv(r, 6)));
+    v.push(("b_constant".into(), rv(r, 7), vec![r.gen::<u64>() % P + 1]));
+    v.push(("b_constant_padded".into(), rv(r, 7), vec![P - 2, 0, 0]));
+    v.push(("both_constant".into(), vec![9], vec![P - 1]));
+    v.push(("equal_degree".into(), rv(r, 6), rv(r, 6)));
+    v.push(("equal_degree_1".into(), rv(r, 2), rv(r, 2)));
+    v.push(("a_eq_b".into(), vec![1, 2, 3, 4], vec![1, 2, 3, 4]));
+    for (la, lb) in [(2usize, 2usize), (3, 2), (5, 2), (5, 3), (8, 4), (9, 5), (12, 3), (17, 9), (24, 2), (33, 17), (40, 8), (64, 33)] {
+        v.push((format!("generic_{la}_{lb}"), rv(r, la), rv(r, lb)));
+    }
+    // leading zero coefficients in the representation
+    let mut a = rv(r, 9);
+    a.extend([0, P, 0]);
+    let mut b = rv(r, 4);
+    b.extend([0, 0]);
+    v.push(("untrimmed_operands".into(), a, b));
+    // exact division: a = q * b
+    let q = rv(r, 5);
+    let b = rv(r, 4);
+    v.push(("exact".into(), r_polymul(&q, &b), b));
+    // divisor with zero low coefficients (b = X^2 * b')
+    let mut b = vec![0, 0];
+    b.extend(rv(r, 3));
+    v.push(("b_low_zero".into(), rv(r, 11), b));
+    // quotient with zero low coefficients: a = X^j * q' * b + r
+    for (j, lq, lb) in [(1usize, 1usize, 3usize), (1, 3, 3), (2, 2, 4), (3, 4, 2)] {
+        let b = rv(r, lb);
+        let mut q = vec![0u64; j];
+        q.extend(rv(r, lq));
+        let mut a = r_polymul(&q, &b);
+        if j % 2 == 0 {
+            a[0] = r_add(a[0], 1); // with a non-zero remainder
+        }
+        v.push((format!("q_low_zero_{j}_{lq}_{lb}"), a, b));
+    }
+    // sparse divisors X^k + c: the inverse power series of the reversed divisor has zero runs
+    for (k, da) in [(2usize, 6usize), (2, 9), (3, 10), (4, 11), (4, 12), (4, 16), (8, 24), (8, 27)] {
+        let mut b = vec![0u64; k + 1];
+        b[0] = if k % 2 == 0 { 5 } else { P - 1 };
+        b[k] = 1;
+        v.push((format!("sparse_divisor_x{k}_deg{da}"), rv(r, da + 1), b));
+    }
+    // vanishing polynomial X^8 - 1
+    let mut b = vec![0u64; 9];
+    b[0] = P - 1;
+    b[8] = 1;
+    v.push(("sparse_divisor_vanishing8".into(), rv(r, 30), b));
+    if thorough {
+        for (la, lb) in [(100usize, 37usize), (128, 64), (129, 65), (200, 3), (255, 254), (300, 150)] {
+            v.push((format!("generic_{la}_{lb}"), rv(r, la), rv(r, lb)));
+        }
+    }
+    v
+}
+
+fn rec_divrem_event(rc: &mut Rec, fun: &str, fam: &str, a: &[u64], b: &[u64], q: &[u64], rm: &[u64], r: &mut ChaCha8Rng) {
+    let db1 = r_deg1(b);
+    let kk = a.len().max(rm.len()).max((q.len() + b.len()).saturating_sub(1));
+    let work: usize = q.len() * b.len();
+    if work <= 2500 {
+        let accs = accs_for(q, b, kk);
+        rc.cost += work as u64 + kk as u64;
+        rc.put(json!({"op": "divrem", "fn": fun, "fam": fam, "a": lv(a), "b": lv(b), "q": lv(q), "r": lv(rm), "db1": db1, "accs": lvv(&accs)}));
+    } else {
+        let x = r.gen::<u64>() % P;
+        rc.cost += (a.len() + b.len() + q.len() + rm.len()) as u64;
+        rc.put(json!({"op": "divrempt", "fn": fun, "fam": fam, "a": lv(a), "b": lv(b), "q": lv(q), "r": lv(rm), "db1": db1, "x": limbs(x),
+                      "ha": lv(&horner_chain(a, x)), "hb": lv(&horner_chain(b, x)), "hq": lv(&horner_chain(q, x)), "hr": lv(&horner_chain(rm, x))}));
+    }
+}
+
+fn rec_poly(rc: &mut Rec, r: &mut ChaCha8Rng, thorough: bool) {
+    // ---------------- multiplication
+    let mut sizes: Vec<(usize, usize)> = vec![(0, 0), (0, 3), (3, 0), (1, 1), (1, 5), (5, 1), (2, 2), (3, 5), (4, 4), (7, 9), (8, 8), (16, 16), (17, 15), (20, 13), (31, 33)];
+    let big: Vec<(usize, usize)> = if thorough { vec![(100, 57), (128, 128), (129, 127), (500, 500), (1000, 24), (2048, 2047)] } else { vec![(100, 57), (257, 255), (1000, 24)] };
+    sizes.extend(big);
+    for (i, &(la, lb)) in sizes.iter().enumerate() {
+        let mut a = gen_vec(r, la, i);
+        let mut b = gen_vec(r, lb, i + 3);
+        if i % 4 == 1 && la > 1 {
+            a[la - 1] = 0; // leading zero in the representation
+        }
+        if i % 5 == 2 && lb > 0 {
+            b = vec![0; lb]; // zero polynomial
+        }
+        let pa = PolynomialCoeffs::new(fv(&a));
+        let pb = PolynomialCoeffs::new(fv(&b));
+        match guarded(|| &pa * &pb) {
+            Ok(p) => {
+                let p = raw(&p.coeffs);
+                if la * lb <= 1200 {
+                    rc.cost += (la * lb) as u64 + p.len() as u64;
+                    rc.put(json!({"op": "polymul", "a": lv(&a), "b": lv(&b), "r": lv(&p), "accs": lvv(&accs_for(&a, &b, p.len()))}));
+                } else {
+                    for t in 0..2 {
+                        let x = if t == 0 { r.gen::<u64>() % P } else { gen_val(r, 4) };
+                        rc.cost += (la + lb + p.len()) as u64;
+                        rc.put(json!({"op": "mulpt", "a": lv(&a), "b": lv(&b), "r": lv(&p), "x": limbs(x),
+                                      "ha": lv(&horner_chain(&a, x)), "hb": lv(&horner_chain(&b, x)), "hr": lv(&horner_chain(&p, x))}));
+                    }
+                    for k in [0usize, la.min(lb) / 2, la + lb - 2, p.len() - 1] {
+                        let acc = conv_chain(&a, &b, k);
+                        rc.cost += acc.len() as u64;
+                        rc.put(json!({"op": "convk", "what": "mul", "a": lv(&a), "b": lv(&b), "k": k, "acc": lv(&acc), "rk": limbs(p[k])}));
+                    }
+                }
+            }
+            Err(msg) => rc.panic("mul", false, &msg, json!({"la": la, "lb": lb})),
+        }
+    }
+    // ---------------- division with remainder (both implementations)
+    for (fam, a, b) in div_cases(r, thorough) {
+        let bzero = r_deg1(&b) == 0;
+        for fun in ["div_rem", "div_rem_long_division"] {
+            let pa = PolynomialCoeffs::new(fv(&a));
+            let pb = PolynomialCoeffs::new(fv(&b));
+            let res = guarded(|| if fun == "div_rem" { pa.div_rem(&pb) } else { pa.div_rem_long_division(&pb) });
+            match res {
+                Ok((q, rm)) => {
+                    if bzero {
+                        // a quotient by the zero polynomial cannot satisfy the definition; a == 0 returns (0, 0) before the check
+                        rc.put(json!({"op": "note", "what": "division by zero polynomial returned", "fn": fun, "fam": fam}));
+                        continue;
+                    }
+                    rec_divrem_event(rc, fun, &fam, &a, &b, &raw(&q.coeffs), &raw(&rm.coeffs), r);
+                }
+                Err(msg) => rc.panic(fun, bzero, &msg, json!({"fam": fam, "a": a, "b": b})),
+            }
+        }
+    }
+    // ---------------- division by a linear factor
+    for (i, &lp) in [0usize, 1, 2, 3, 5, 16, 33, 200].iter().enumerate() {
+        let p = gen_vec(r, lp, i);
+        for zc in 0..4 {
+            let z = match zc {
+                0 => 0,
+                1 => 1,
+                2 => gen_val(r, 5),
+                _ => r.gen::<u64>() % P,
+            };
+            let pp = PolynomialCoeffs::new(fv(&p));
+            match guarded(|| (pp.divide_by_linear(f(z)), pp.eval(f(z)))) {
+                Ok((q, ev)) => {
+                    let q = raw(&q.coeffs);
+                    let zq: Vec<u64> = q.iter().map(|&qi| r_mul(z, qi)).collect();
+                    rc.cost += 2 * lp as u64;
+                    rc.put(json!({"op": "divlin", "p": lv(&p), "z": limbs(z), "q": lv(&q), "ev": fl(ev), "acc": lv(&horner_chain(&p, z)), "zq": lv(&zq)}));
+                }
+                Err(msg) => rc.panic("divide_by_linear", false, &msg, json!({"lp": lp, "z": z})),
+            }
+        }
+    }
+    // a root of the polynomial: p = (X - z) * s
+    {
+        let z = r.gen::<u64>() % P;
+        let s = gen_vec(r, 6, 1);
+        let p = r_polymul(&s, &[r_sub(0, z), 1]);
+        let pp = PolynomialCoeffs::new(fv(&p));
+        if let Ok((q, ev)) = guarded(|| (pp.divide_by_linear(f(z)), pp.eval(f(z)))) {
+            let q = raw(&q.coeffs);
+            let zq: Vec<u64> = q.iter().map(|&qi| r_mul(z, qi)).collect();
+            rc.put(json!({"op": "divlin", "p": lv(&p), "z": limbs(z), "q": lv(&q), "ev": fl(ev), "acc": lv(&horner_chain(&p, z)), "zq": lv(&zq), "note": "root"}));
+        }
+    }
+    // ---------------- inverse modulo X^n
+    let mut inv_cases: Vec<(String, Vec<u64>, usize)> = vec![];
+    for (la, n) in [(1usize, 1usize), (1, 5), (2, 1), (2, 2), (3, 4), (5, 3), (5, 8), (4, 9), (9, 16), (16, 16), (7, 31), (20, 32), (40, 17)] {
+        let mut a = gen_vec(r, la, la + n);
+        if a[0] % P == 0 {
+            a[0] = 1;
+        }
+        inv_cases.push((format!("generic_{la}_{n}"), a, n));
+    }
+    inv_cases.push(("constant_padded".into(), vec![P - 3, 0, 0], 6));
+    for (k, n) in [(2usize, 4usize), (2, 5), (2, 8), (4, 5), (4, 8), (4, 9), (4, 12), (8, 20), (3, 7)] {
+        let mut a = vec![0u64; k + 1];
+        a[0] = 1;
+        a[k] = 5;
+        inv_cases.push((format!("sparse_1+5x{k}_mod{n}"), a, n));
+    }
+    if thorough {
+        for (la, n) in [(100usize, 64usize), (64, 100), (33, 128)] {
+            let mut a = gen_vec(r, la, la + n);
+            a[0] = a[0] % P + (a[0] % P == 0) as u64;
+            inv_cases.push((format!("generic_{la}_{n}"), a, n));
+        }
+    }
+    for (fam, a, n) in inv_cases {
+        let pa = PolynomialCoeffs::new(fv(&a));
+        match guarded(|| pa.inv_mod_xn(n)) {
+            Ok(b) => {
+                let b = raw(&b.coeffs);
+                rc.cost += (n * n / 2 + n) as u64;
+                rc.put(json!({"op": "invmod", "fam": fam, "a": lv(&a), "n": n, "b": lv(&b), "accs": lvv(&accs_for(&a, &b, n))}));
+            }
+            Err(msg) => rc.panic("inv_mod_xn", false, &msg, json!({"fam": fam, "a": a, "n": n})),
+        }
+    }
+    // ---------------- interpolation
+    for (i, &np) in [0usize, 1, 2, 3, 4, 5, 8, 9, 16].iter().enumerate() {
+        for domain in 0..2 {
+            let xs: Vec<u64> = if domain == 0 {
+                let mut xs: Vec<u64> = vec![];
+                while xs.len() < np {
+                    let x = gen_val(r, xs.len() + i);
+                    if !xs.iter().any(|y| y % P == x % P) {
+                        xs.push(x);
+                    }
+                }
+                xs
+            } else {
+                let lg = log2_ceil(np.max(1));
+                (0..np).map(|j| r_pow(root(lg), j as u64)).collect()
+            };
+            // overspecified when i is odd: values of a polynomial of lower degree
+            let ys: Vec<u64> = if i % 2 == 1 && np > 2 {
+                let low = gen_vec(r, np - 2, i);
+                xs.iter().map(|&x| r_eval(&low, x)).collect()
+            } else {
+                gen_vec(r, np, i + 11)
+            };
+            let pts: Vec<(F, F)> = xs.iter().zip(&ys).map(|(&x, &y)| (f(x), f(y))).collect();
+            match guarded(|| interpolant(&pts)) {
+                Ok(c) => {
+                    let c = raw(&c.coeffs);
+                    let accs: Vec<Vec<u64>> = xs.iter().map(|&x| horner_chain(&c, x)).collect();
+                    rc.cost += (np * c.len()) as u64;
+                    rc.put(json!({"op": "interp", "domain": domain, "xs": lv(&xs), "ys": lv(&ys), "c": lv(&c), "accs": lvv(&accs)}));
+                    // barycentric evaluation at a node and off the nodes equals the interpolant there
+                    if np >= 1 {
+                        if let Ok(w) = guarded(|| barycentric_weights(&pts)) {
+                            let wr = raw(&w);
+                            let ds: Vec<Vec<u64>> = (0..np).map(|a| (0..np).filter(|&b| b != a).map(|b| r_sub(xs[a], xs[b])).collect()).collect();
+                            let pr: Vec<Vec<u64>> = ds.iter().map(|d| {
+                                let mut ch = vec![1u64];
+                                for &t in d {
+                                    ch.push(r_mul(*ch.last().unwrap(), t));
+                                }
+                                ch
+                            }).collect();
+                            rc.cost += (np * np) as u64;
+                            rc.put(json!({"op": "bary", "xs": lv(&xs), "w": lv(&wr), "ds": lvv(&ds), "pr": lvv(&pr)}));
+                            for x in [xs[np / 2], r.gen::<u64>() % P] {
+                                if let Ok(y) = guarded(|| interpolate(&pts, f(x), &w)) {
+                                    rc.cost += c.len() as u64;
+                                    rc.put(json!({"op": "evalat", "what": "interpolate", "c": lv(&c), "x": limbs(x), "acc": lv(&horner_chain(&c, x)), "y": fl(y)}));
+                                }
+                            }
+                        }
+                    }
+                }
+                Err(msg) => rc.panic("interpolant", false, &msg, json!({"np": np, "domain": domain})),
+            }
+        }
+    }
+    // ---------------- eval, trim, padding
+    for (i, &lc) in [0usize, 1, 2, 7, 64, 150].iter().enumerate() {
+        let mut c = gen_vec(r, lc, i);
+        let x = gen_val(r, i + 3);
+        let pc = PolynomialCoeffs::new(fv(&c));
+        if let Ok(y) = guarded(|| pc.eval(f(x))) {
+            rc.cost += lc as u64;
+            rc.put(json!({"op": "evalat", "what": "eval", "c": lv(&c), "x": limbs(x), "acc": lv(&horner_chain(&c, x)), "y": fl(y)}));
+        }
+        if lc >= 1 {
+            // eval_with_powers: powers x^1 .. x^(lc-1)
+            let pw: Vec<F> = (1..lc).map(|e| f(r_pow(x, e as u64))).collect();
+            if let Ok(y) = guarded(|| pc.eval_with_powers(&pw)) {
+                rc.cost += lc as u64;
+                rc.put(json!({"op": "evalat", "what": "eval_with_powers", "c": lv(&c), "x": limbs(x), "acc": lv(&horner_chain(&c, x)), "y": fl(y)}));
+            }
+        }
+        // trailing zeros (some non-canonical) to trim
+        for extra in [0usize, 1, 3] {
+            let mut cz = c.clone();
+            for e in 0..extra {
+                cz.push(if e % 2 == 0 { 0 } else { P });
+            }
+            let pz = PolynomialCoeffs::new(fv(&cz));
+            if let Ok((t, d1, lead)) = guarded(|| (pz.trimmed(), pz.degree_plus_one(), pz.lead())) {
+                rc.put(json!({"op": "trim", "c": lv(&cz), "out": lv(&raw(&t.coeffs)), "d1": d1, "lead": fl(lead)}));
+            }
+            let mut pm = pz.clone();
+            if guarded(|| pm.trim()).is_ok() {
+                rc.put(json!({"op": "trim", "c": lv(&cz), "out": lv(&raw(&pm.coeffs)), "d1": pz.degree_plus_one(), "lead": fl(pz.lead())}));
+            }
+            for len in [0usize, lc / 2, lc, lc + extra, lc + extra + 1] {
+                let mut pt = pz.clone();
+                let ok = pt.trim_to_len(len).is_ok();
+                rc.put(json!({"op": "trimto", "c": lv(&cz), "len": len, "ok": ok, "out": lv(&raw(&pt.coeffs))}));
+                if len >= cz.len() {
+                    if let Ok(pd) = guarded(|| pz.padded(len)) {
+                        rc.put(json!({"op": "pad", "what": "padded", "c": lv(&cz), "out": lv(&raw(&pd.coeffs)), "len": len}));
+                    }
+                }
+            }
+        }
+        // all-zero polynomial
+        c.iter_mut().for_each(|v| *v = 0);
+        let pz = PolynomialCoeffs::new(fv(&c));
+        rc.put(json!({"op": "trim", "c": lv(&c), "out": lv(&raw(&pz.trimmed().coeffs)), "d1": pz.degree_plus_one(), "lead": fl(pz.lead())}));
+    }
+}
+
+// =============================================================================================
+// record: section 3 — vanishing polynomial on a coset, coset shifts, permutations, integer helpers
+// =============================================================================================
+fn rec_misc(rc: &mut Rec, r: &mut ChaCha8Rng, thorough: bool) {
+    let fshift = canon(F::coset_shift());
+    for nlog in 0..=(if thorough { 10 } else { 6 }) {
+        for rb in 0..=3usize {
+            let z = match guarded(|| ZeroPolyOnCoset::<F>::new(nlog, rb)) {
+                Ok(z) => z,
+                Err(msg) => {
+                    rc.panic("ZeroPolyOnCoset::new", false, &msg, json!({"nlog": nlog, "rb": rb}));
+                    continue;
+                }
+            };
+            let big = 1usize << (nlog + rb);
+            let mut is: Vec<usize> = if big <= 8 { (0..big).collect() } else { vec![0, 1, (1 << rb) - 1, 1 << rb, (1 << rb) + 1, big - 1, r.gen_range(0..big)] };
+            is.dedup();
+            for i in is {
+                let w = root(nlog + rb);
+                let wi = r_pow(w, i as u64);
+                let x = r_mul(fshift, wi);
+                match guarded(|| (z.eval(i), z.eval_inverse(i), z.eval_l_0(i, f(x)))) {
+                    Ok((zv, zi, l0)) => {
+                        let xm1 = r_sub(x, 1);
+                        let nd = r_mul((1u64 << nlog) % P, xm1);
+                        rc.cost += 120;
+                        rc.put(json!({"op": "zpc", "nlog": nlog, "rb": rb, "i": i, "w": limbs(w), "pc": pow_chain(w, i as u64), "wi": limbs(wi), "shift": limbs(fshift), "x": limbs(x),
+                                      "xn": lv(&sq_chain(x, nlog)), "z": fl(zv), "zi": fl(zi), "l0": fl(l0), "xm1": limbs(xm1), "nd": limbs(nd)}));
+                    }
+                    Err(msg) => rc.panic("ZeroPolyOnCoset::eval", false, &msg, json!({"nlog": nlog, "rb": rb, "i": i})),
+                }
+            }
+        }
+    }
+    for (lg, num) in [(0usize, 1usize), (1, 2), (3, 5), (5, 50), (8, 80), (12, 135), (16, 20)] {
+        match guarded(|| get_unique_coset_shifts::<F>(1 << lg, num)) {
+            Ok(ks) => {
+                let ks = raw(&ks);
+                let chs: Vec<Vec<u64>> = ks.iter().map(|&k| sq_chain(k, lg)).collect();
+                rc.cost += (num * (lg + 1)) as u64;
+                rc.put(json!({"op": "shifts", "lg": lg, "ks": lv(&ks), "chs": lvv(&chs)}));
+            }
+            Err(msg) => rc.panic("get_unique_coset_shifts", false, &msg, json!({"lg": lg, "num": num})),
+        }
+    }
+    // ---------------- bit-reversal permutations on tagged elements
+    for lg in 0..=14usize {
+        let n = 1usize << lg;
+        let tags: Vec<u64> = (0..n as u64).collect();
+        match guarded(|| reverse_index_bits(&tags)) {
+            Ok(o) => rc.put(json!({"op": "bitrev", "what": "reverse_index_bits", "lg": lg, "out": o})),
+            Err(msg) => rc.panic("reverse_index_bits", false, &msg, json!({"lg": lg})),
+        }
+        let mut t64 = tags.clone();
+        match guarded(|| reverse_index_bits_in_place(&mut t64)) {
+            Ok(()) => rc.put(json!({"op": "bitrev", "what": "in_place<u64>", "lg": lg, "out": t64})),
+            Err(msg) => rc.panic("reverse_index_bits_in_place<u64>", false, &msg, json!({"lg": lg})),
+        }
+        if lg >= 11 {
+            // 16- and 32-byte elements cross SMALL_ARR_SIZE earlier
+            let mut t128: Vec<u128> = (0..n as u128).collect();
+            if guarded(|| reverse_index_bits_in_place(&mut t128)).is_ok() {
+                rc.put(json!({"op": "bitrev", "what": "in_place<u128>", "lg": lg, "out": t128.iter().map(|x| *x as u64).collect::<Vec<_>>()}));
+            }
+            let mut t256: Vec<[u64; 4]> = (0..n as u64).map(|i| [i, !i, i, 7]).collect();
+            if guarded(|| reverse_index_bits_in_place(&mut t256)).is_ok() {
+                rc.put(json!({"op": "bitrev", "what": "in_place<[u64;4]>", "lg": lg, "out": t256.iter().map(|x| x[0]).collect::<Vec<_>>()}));
+            }
+        }
+    }
+    // sampled positions above 2^14 (u32 / u16 elements reach the chunked variant at 2^15 / 2^16)
+    for (lg, bytes) in [(15usize, 8usize), (15, 4), (16, 4), (16, 2), (17, 4), (18, 8)] {
+        let n = 1usize << lg;
+        let pos: Vec<usize> = (0..512).map(|t| if t < 4 { [0, 1, n - 1, n / 2][t] } else { r.gen_range(0..n) }).collect();
+        let val: Vec<u64> = match bytes {
+            8 => {
+                let mut v: Vec<u64> = (0..n as u64).collect();
+                reverse_index_bits_in_place(&mut v);
+                pos.iter().map(|&p| v[p]).collect()
+            }
+            4 => {
+                let mut v: Vec<u32> = (0..n as u32).collect();
+                reverse_index_bits_in_place(&mut v);
+                pos.iter().map(|&p| v[p] as u64).collect()
+            }
+            _ => {
+                let mut v: Vec<u16> = (0..n).map(|i| i as u16).collect();
+                reverse_index_bits_in_place(&mut v);
+                pos.iter().map(|&p| v[p] as u64).collect()
+            }
+        };
+        rc.put(json!({"op": "bitrevs", "what": format!("in_place<{}B>", bytes), "lg": lg, "pos": pos, "val": val}));
+    }
+    // ---------------- rectangular transposes
+    for (rows, cols) in [(1usize, 1usize), (1, 5), (5, 1), (3, 4), (4, 3), (8, 8), (7, 13), (2, 0), (64, 100), (100, 64)] {
+        let m: Vec<Vec<u64>> = (0..rows).map(|i| (0..cols).map(|j| (i * cols + j) as u64).collect()).collect();
+        match guarded(|| transpose(&m)) {
+            Ok(t) => rc.put(json!({"op": "transpose", "rows": rows, "cols": cols, "out": t})),
+            Err(msg) => rc.panic("transpose", false, &msg, json!({"rows": rows, "cols": cols})),
+        }
+    }
+    // ---------------- integer helpers
+    let mut ns: Vec<u64> = (0..=(if thorough { 4100u64 } else { 260 })).collect();
+    for k in 1..64 {
+        for d in [-1i64, 0, 1] {
+            ns.push(((1u64 << k) as i128 + d as i128) as u64);
+        }
+    }
+    ns.extend([u64::MAX, u64::MAX - 1, 0x78c341c65ae6d262, 3 << 40, 5 << 61]);
+    for &n in &ns {
+        rc.put(json!({"op": "log2c", "n": limbs(n), "r": log2_ceil(n as usize)}));
+        rc.put(json!({"op": "bits", "n": limbs(n), "r": bits_u64(n)}));
+        match guarded(|| log2_strict(n as usize)) {
+            Ok(v) => rc.put(json!({"op": "log2s", "n": limbs(n), "panicked": false, "r": v})),
+            Err(_) => rc.put(json!({"op": "log2s", "n": limbs(n), "panicked": true, "r": 0})),
+        }
+    }
+    for &n in ns.iter().filter(|&&n| n > 0).step_by(if thorough { 3 } else { 7 }) {
+        for base in [2u64, 3, 10, 1 << 16, (1 << 32) + 1, u64::MAX] {
+            if let Ok(v) = guarded(|| log_floor(n, base)) {
+                let mut pw: Vec<u128> = vec![1];
+                for _ in 0..=v {
+                    pw.push(pw.last().unwrap().wrapping_mul(base as u128));
+                }
+                rc.put(json!({"op": "logfl", "n": nat_bytes(n as u128), "base": nat_bytes(base as u128), "r": v,
+                              "pw": pw.iter().map(|x| nat_bytes(*x)).collect::<Vec<_>>()}));
+            }
+        }
+    }
+}
+
+/// `c15-record --out <path> [--thorough 1]`
+fn record(args: &[String]) -> anyhow::Result<()> {
+    let out = opt(args, "--out").ok_or_else(|| anyhow::anyhow!("--out"))?;
+    let thorough = opt_usize(args, "--thorough", 0) == 1;
+    let lg_max = opt_usize(args, "--lgmax", 12);
+    let mut rc = Rec { log: NdJson::create(out)?, cost: 0, panics: 0 };
+    let mut r = rng(15);
+    // event 1: the field's roots of unity and coset shift
+    let g: Vec<u64> = (0..=32).map(|k| F::primitive_root_of_unity(k).to_noncanonical_u64()).collect();
+    let shift = F::coset_shift().to_noncanonical_u64();
+    let s2 = sq_chain(shift, 32);
+    rc.put(json!({"op": "roots", "g": lv(&g), "shift": limbs(shift), "s2": lv(&s2)}));
+    let (full_n, s) = if thorough { (32, 8) } else { (16, 4) };
+    rec_transforms(&mut rc, &mut r, lg_max, full_n, s, thorough);
+    rec_poly(&mut rc, &mut r, thorough);
+    rec_misc(&mut rc, &mut r, thorough);
+    let (cost, panics) = (rc.cost, rc.panics);
+    let n = rc.log.finish();
+    emit(&json!({"kind": "c15-record", "events": n, "model_mults": cost, "panics": panics, "out": out,
+                 "packed_width": <<F as Packable>::Packing as PackedField>::WIDTH}));
+    Ok(())
+}
+
+// =============================================================================================
+// bulk: the real code against the naive u128 reference, and cross-option equality
+// =============================================================================================
+struct Bulk {
+    cases: u64,
+    nontrivial: u64,
+    mism: Vec<Value>,
+    digest: u64, // order-sensitive digest of every transform output (compared across builds)
+    reflog: Option<NdJson>,
+    refn: u64,
+    fam_total: u64,
+    fam_kept: u64,
+    other_total: u64,
+}
+impl Bulk {
+    /// mismatches on inputs of the two documented div_rem / inv_mod_xn defect families are capped
+    /// separately so that they cannot crowd out anything else
+    fn bad(&mut self, v: Value) {
+        let fam = v.get("q_low_zero").and_then(|x| x.as_bool()).unwrap_or(false) || v.get("inv_gap").and_then(|x| x.as_bool()).unwrap_or(false);
+        if fam {
+            self.fam_total += 1;
+            if self.fam_kept < 10 {
+                self.fam_kept += 1;
+                self.mism.push(v);
+            }
+        } else {
+            self.other_total += 1;
+            if self.other_total <= 40 {
+                self.mism.push(v);
+            }
+        }
+    }
+    fn absorb(&mut self, xs: &[u64]) {
+        for &x in xs {
+            self.digest = (self.digest ^ (x % P)).wrapping_mul(0x100000001b3).rotate_left(17);
+        }
+    }
+    /// reference multiply-accumulate s + a*b, a sample of which is logged for TLC (OpLogTrace "mac")
+    fn mac(&mut self, s: u64, a: u64, b: u64) -> u64 {
+        let r = r_add(s, r_mul(a, b));
+        self.refn += 1;
+        if self.refn % 40009 == 0 {
+            if let Some(l) = self.reflog.as_mut() {
+                l.put(&json!({"op": "mac", "s": limbs(s), "a": limbs(a), "b": limbs(b), "r": limbs(r)}));
+            }
+        }
+        r
+    }
+    /// naive evaluation of c at x with the reference arithmetic
+    fn eval(&mut self, c: &[u64], x: u64) -> u64 {
+        let mut acc = 0u64;
+        for &ci in c.iter().rev() {
+            acc = self.mac(ci, acc, x);
+        }
+        acc
+    }
+}
+
+fn bulk_transforms(bk: &mut Bulk, r: &mut ChaCha8Rng, lg_max: usize, reps: usize) {
+    for lg in 0..=lg_max {
+        let n = 1usize << lg;
+        let table = table_for(n);
+        let w = root(lg);
+        let pows: Vec<u64> = {
+            let mut v = vec![1u64];
+            for _ in 1..n {
+                v.push(r_mul(*v.last().unwrap(), w));
+            }
+            v
+        };
+        for rep in 0..reps {
+            for zr in 0..=lg {
+                if rep > 0 && lg > 8 && zr % 3 != rep % 3 {
+                    continue;
+                }
+                let m = n >> zr;
+                let mut full = gen_vec(r, m, rep * 11 + zr);
+                full.resize(n, 0);
+                // indices compared with the O(n) naive evaluation: all for n <= 1024, 48 sampled above
+                let idx: Vec<usize> = if n <= 1024 { (0..n).collect() } else { (0..48).map(|t| if t < 4 { [0, 1, n / 2, n - 1][t] } else { r.gen_range(0..n) }).collect() };
+                let expect: Vec<u64> = idx.iter().map(|&k| bk.eval(&full[..m], pows[k])).collect();
+                let mut first: Option<Vec<u64>> = None;
+                for zf in zf_variants(zr, true) {
+                    for tb in [false, true] {
+                        bk.cases += 1;
+                        let res = guarded(|| fft_with_options(PolynomialCoeffs::new(fv(&full)), zf, if tb { Some(&table) } else { None }));
+                        match res {
+                            Ok(v) => {
+                                let o = raw(&v.values);
+                                if let Some((t, &k)) = idx.iter().enumerate().find(|(t, &k)| o[k] % P != expect[*t]) {
+                                    bk.bad(json!({"what": "fft", "lg": lg, "r": zr, "zf": zf_name(zf), "table": tb, "index": k, "got": o[k], "expected": expect[t]}));
+                                }
+                                match &first {
+                                    None => {
+                                        bk.absorb(&o);
+                                        first = Some(o);
+                                    }
+                                    Some(f0) => {
+                                        if !eqv(f0, &o) {
+                                            bk.bad(json!({"what": "fft-options-differ", "lg": lg, "r": zr, "zf": zf_name(zf), "table": tb}));
+                                        }
+                                    }
+                                }
+                            }
+                            Err(msg) => bk.bad(json!({"what": "fft", "lg": lg, "r": zr, "zf": zf_name(zf), "table": tb, "panic": msg})),
+                        }
+                    }
+                }
+                bk.nontrivial += 1;
+                // inverse: every option setting returns the same coefficients, and they evaluate back to the input
+                let mut ifirst: Option<Vec<u64>> = None;
+                for zf in zf_variants(zr, lg <= 6) {
+                    for tb in [false, true] {
+                        bk.cases += 1;
+                        match guarded(|| ifft_with_options(PolynomialValues::new(fv(&full)), zf, if tb { Some(&table) } else { None })) {
+                            Ok(c) => {
+                                let c = raw(&c.coeffs);
+                                match &ifirst {
+                                    None => {
+                                        let chk: Vec<usize> = if n <= 256 { (0..n).collect() } else { idx.iter().copied().take(12).collect() };
+                                        for k in chk {
+                                            let y = bk.eval(&c, pows[k]);
+                                            if y != full[k] % P {
+                                                bk.bad(json!({"what": "ifft", "lg": lg, "r": zr, "index": k, "got": y, "expected": full[k] % P}));
+                                                break;
+                                            }
+                                        }
+                                        // and the forward transform maps them back
+                                        if let Ok(back) = guarded(|| fft_with_options(PolynomialCoeffs::new(fv(&c)), None, None)) {
+                                            if !eqv(&raw(&back.values), &full) {
+                                                bk.bad(json!({"what": "fft(ifft(v)) != v", "lg": lg, "r": zr}));
+                                            }
+                                        }
+                                        bk.absorb(&c);
+                                        ifirst = Some(c);
+                                    }
+                                    Some(c0) => {
+                                        if !eqv(c0, &c) {
+                                            bk.bad(json!({"what": "ifft-options-differ", "lg": lg, "r": zr, "zf": zf_name(zf), "table": tb}));
+                                        }
+                                    }
+                                }
+                            }
+                            Err(msg) => bk.bad(json!({"what": "ifft", "lg": lg, "r": zr, "zf": zf_name(zf), "table": tb, "panic": msg})),
+                        }
+                    }
+                }
+            }
+            // coset variants with a random shift; lde
+            let shift = gen_val(r, rep + 1).max(1);
+            if shift % P != 0 {
+                let c = gen_vec(r, n, rep + 5);
+                let pc = PolynomialCoeffs::new(fv(&c));
+                bk.cases += 3;
+                match guarded(|| (pc.coset_fft(f(shift)), pc.coset_fft_with_options(f(shift), Some(0), Some(&table)))) {
+                    Ok((a, b)) => {
+                        let (a, b) = (raw(&a.values), raw(&b.values));
+                        if !eqv(&a, &b) {
+                            bk.bad(json!({"what": "coset-fft-options-differ", "lg": lg, "shift": shift}));
+                        }
+                        let ks: Vec<usize> = if n <= 256 { (0..n).collect() } else { (0..16).map(|_| r.gen_range(0..n)).collect() };
+                        for k in ks {
+                            let y = bk.eval(&c, r_mul(shift, pows[k]));
+                            if y != a[k] % P {
+                                bk.bad(json!({"what": "coset_fft", "lg": lg, "shift": shift, "index": k, "got": a[k], "expected": y}));
+                                break;
+                            }
+                        }
+                        bk.absorb(&a);
+                        match guarded(|| PolynomialValues::new(fv(&a)).coset_ifft(f(shift))) {
+                            Ok(back) => {
+                                if !eqv(&raw(&back.coeffs), &c) {
+                                    bk.bad(json!({"what": "coset_ifft(coset_fft(c)) != c", "lg": lg, "shift": shift}));
+                                }
+                            }
+                            Err(msg) => bk.bad(json!({"what": "coset_ifft", "lg": lg, "shift": shift, "panic": msg})),
+                        }
+                    }
+                    Err(msg) => bk.bad(json!({"what": "coset_fft", "lg": lg, "shift": shift, "panic": msg})),
+                }
+            }
+            for rb in 1..=3usize {
+                if lg + rb > lg_max {
+                    continue;
+                }
+                let vals = gen_vec(r, n, rep + rb);
+                bk.cases += 2;
+                // lde agrees with the input on the subgroup and is the evaluation of ifft(vals)
+                if let Ok((o, oc, c)) = guarded(|| {
+                    let pv = PolynomialValues::new(fv(&vals));
+                    (pv.clone().lde(rb), pv.clone().lde_onto_coset(rb), pv.ifft())
+                }) {
+                    let (o, oc, c) = (raw(&o.values), raw(&oc.values), raw(&c.coeffs));
+                    let big = n << rb;
+                    if o.len() != big || oc.len() != big || (0..n).any(|i| o[i << rb] % P != vals[i] % P) {
+                        bk.bad(json!({"what": "lde does not extend its input", "lg": lg, "rb": rb}));
+                    }
+                    let wb = root(lg + rb);
+                    let fs = canon(F::coset_shift());
+                    for _ in 0..6 {
+                        let k = r.gen_range(0..big);
+                        let x = r_pow(wb, k as u64);
+                        if bk.eval(&c, x) != o[k] % P {
+                            bk.bad(json!({"what": "lde", "lg": lg, "rb": rb, "index": k}));
+                        }
+                        if bk.eval(&c, r_mul(fs, x)) != oc[k] % P {
+                            bk.bad(json!({"what": "lde_onto_coset", "lg": lg, "rb": rb, "index": k}));
+                        }
+                    }
+                    bk.absorb(&o);
+                    bk.absorb(&oc);
+                } else {
+                    bk.bad(json!({"what": "lde", "lg": lg, "rb": rb, "panic": true}));
+                }
+            }
+        }
+    }
+}
+
+/// the inverse power series of rev(b) has a zero coefficient at some index 2^j - 1 < n
+fn has_inv_gap(h: &[u64], n: usize) -> bool {
+    if h.is_empty() || h[0] % P == 0 || n == 0 {
+        return false;
+    }
+    let inv = r_invmod(h, n);
+    let mut j = 1usize;
+    while (1usize << j) - 1 < n {
+        if inv[(1 << j) - 1] == 0 {
+            return true;
+        }
+        j += 1;
+    }
+    false
+}
+
+fn bulk_poly(bk: &mut Bulk, r: &mut ChaCha8Rng, n_cases: usize) {
+    for t in 0..n_cases {
+        let la = match t % 5 {
+            0 => r.gen_range(0..6),
+            1 => r.gen_range(0..40),
+            _ => r.gen_range(0..200),
+        };
+        let lb = match t % 7 {
+            0 => r.gen_range(0..4),
+            1 => la,
+            _ => r.gen_range(0..120),
+        };
+        let mut a = gen_vec(r, la, t);
+        let mut b = gen_vec(r, lb, t + 1);
+        // structured operands: sparse, zero low / high coefficients
+        if t % 11 == 3 {
+            for (i, v) in b.iter_mut().enumerate() {
+                if i != 0 && i + 1 != lb {
+                    *v = 0;
+                }
+            }
+        }
+        if t % 13 == 5 && la > 2 {
+            a[0] = 0;
+            a[1] = 0;
+        }
+        if t % 17 == 7 && lb > 1 {
+            b[lb - 1] = 0;
+        }
+        let (ca, cb) = (can(&a), can(&b));
+        let pa = PolynomialCoeffs::new(fv(&a));
+        let pb = PolynomialCoeffs::new(fv(&b));
+        bk.cases += 1;
+        bk.nontrivial += 1;
+        // multiplication
+        match guarded(|| &pa * &pb) {
+            Ok(p) => {
+                if !eqpoly(&raw(&p.coeffs), &r_polymul(&ca, &cb)) {
+                    bk.bad(json!({"what": "mul", "a": a, "b": b}));
+                }
+            }
+            Err(msg) => bk.bad(json!({"what": "mul", "a": a, "b": b, "panic": msg})),
+        }
+        // division
+        let (da, db) = (r_deg1(&ca), r_deg1(&cb));
+        if db > 0 {
+            let (q0, r0) = r_divrem(&ca, &cb);
+            // classification of the input (not of the verdict): known defect families of div_rem
+            let q_low_zero = da >= db && q0[0] == 0;
+            let revb: Vec<u64> = cb[..db].iter().rev().copied().collect();
+            let gap = da >= db && has_inv_gap(&revb, da - db + 1);
+            for fun in ["div_rem", "div_rem_long_division"] {
+                bk.cases += 1;
+                let res = guarded(|| if fun == "div_rem" { pa.div_rem(&pb) } else { pa.div_rem_long_division(&pb) });
+                match res {
+                    Ok((q, rm)) => {
+                        if !eqpoly(&raw(&q.coeffs), &q0) || !eqpoly(&raw(&rm.coeffs), &r0) {
+                            bk.bad(json!({"what": fun, "a": a, "b": b, "q_low_zero": q_low_zero, "inv_gap": gap,
+                                          "got_q": raw(&q.coeffs), "got_r": raw(&rm.coeffs), "expected_q": q0, "expected_r": r0}));
+                        }
+                    }
+                    Err(msg) => bk.bad(json!({"what": fun, "a": a, "b": b, "q_low_zero": q_low_zero, "inv_gap": gap, "panic": msg})),
+                }
+            }
+        }
+        // division by a linear factor, inverse modulo X^n
+        let z = gen_val(r, t);
+        bk.cases += 1;
+        match guarded(|| pa.divide_by_linear(f(z))) {
+            Ok(q) => {
+                let (q0, _) = if la > 0 { r_divrem_monic_linear(&ca, z % P) } else { (vec![], 0) };
+                if !eqpoly(&raw(&q.coeffs), &q0) {
+                    bk.bad(json!({"what": "divide_by_linear", "p": a, "z": z}));
+                }
+            }
+            Err(msg) => bk.bad(json!({"what": "divide_by_linear", "p": a, "z": z, "panic": msg})),
+        }
+        if la > 0 && ca[0] != 0 {
+            let n = 1 + t % 70;
+            bk.cases += 1;
+            let gap = has_inv_gap(&ca, n);
+            match guarded(|| pa.inv_mod_xn(n)) {
+                Ok(inv) => {
+                    if !eqpoly(&raw(&inv.coeffs), &r_invmod(&ca, n)) {
+                        bk.bad(json!({"what": "inv_mod_xn", "a": a, "n": n, "inv_gap": gap}));
+                    }
+                }
+                Err(msg) => bk.bad(json!({"what": "inv_mod_xn", "a": a, "n": n, "inv_gap": gap, "panic": msg})),
+            }
+        }
+        // interpolation through up to 24 points
+        if t % 4 == 0 {
+            let np = t / 4 % 25;
+            let mut xs: Vec<u64> = vec![];
+            while xs.len() < np {
+                let x = r.gen::<u64>() % P;
+                if !xs.contains(&x) {
+                    xs.push(x);
+                }
+            }
+            let c0 = gen_vec(r, np, t);
+            let pts: Vec<(F, F)> = xs.iter().map(|&x| (f(x), f(r_eval(&c0, x)))).collect();
+            bk.cases += 1;
+            match guarded(|| interpolant(&pts)) {
+                Ok(c) => {
+                    if !eqpoly(&raw(&c.coeffs), &c0) {
+                        bk.bad(json!({"what": "interpolant", "xs": xs, "coeffs": c0}));
+                    }
+                }
+                Err(msg) => bk.bad(json!({"what": "interpolant", "xs": xs, "panic": msg})),
+            }
+        }
+    }
+}
+/// synthetic division of c by (X - z): (quotient, remainder)
+fn r_divrem_monic_linear(c: &[u64], z: u64) -> (Vec<u64>, u64) {
+    let mut q = vec![0u64; c.len() - 1];
+    let mut acc = 0u64;
+    for i in (0..c.len()).rev() {
+        acc = r_add(r_mul(acc, z), c[i]);
+        if i > 0 {
+            q[i - 1] = acc;
+        }
+    }
+    (q, acc)
+}
+
+fn check_perm<T: Copy + PartialEq + Send + Sync>(bk: &mut Bulk, name: &str, lg: usize, make: impl Fn(usize) -> T) {
+    let n = 1usize << lg;
+    let src: Vec<T> = (0..n).map(&make).collect();
+    bk.cases += 2;
+    bk.nontrivial += 1;
+    match guarded(|| reverse_index_bits(&src)) {
+        Ok(o) => {
+            if o.len() != n || (0..n).any(|i| o[i] != src[rev_bits(i, lg)]) {
+                bk.bad(json!({"what": "reverse_index_bits", "type": name, "lg": lg}));
+            }
+        }
+        Err(msg) => bk.bad(json!({"what": "reverse_index_bits", "type": name, "lg": lg, "panic": msg})),
+    }
+    let mut v = src.clone();
+    match guarded(|| reverse_index_bits_in_place(&mut v)) {
+        Ok(()) => {
+            if let Some(i) = (0..n).find(|&i| v[i] != src[rev_bits(i, lg)]) {
+                bk.bad(json!({"what": "reverse_index_bits_in_place", "type": name, "lg": lg, "index": i}));
+            }
+        }
+        Err(msg) => bk.bad(json!({"what": "reverse_index_bits_in_place", "type": name, "lg": lg, "panic": msg})),
+    }
+}
+
+fn bulk_perms(bk: &mut Bulk, lg_hi: usize) {
+    let h = |i: usize| (i as u64).wrapping_mul(0x9E37_79B9_7F4A_7C15) >> 7;
+    for lg in 0..=lg_hi {
+        check_perm::<u8>(bk, "u8", lg, |i| (h(i) % 251) as u8);
+        check_perm::<u16>(bk, "u16", lg, |i| h(i) as u16);
+        check_perm::<[u8; 3]>(bk, "[u8;3]", lg, |i| [i as u8, (i >> 8) as u8, (i >> 16) as u8]);
+        check_perm::<u32>(bk, "u32", lg, |i| i as u32);
+        if lg <= 18 {
+            check_perm::<u64>(bk, "u64", lg, |i| i as u64);
+            check_perm::<u128>(bk, "u128", lg, |i| (i as u128) << 64 | h(i) as u128);
+            check_perm::<F>(bk, "GoldilocksField", lg, |i| fc(h(i)));
+        }
+        if lg <= 15 {
+            check_perm::<[u64; 4]>(bk, "[u64;4]", lg, |i| [i as u64, h(i), 0, 1]);
+            check_perm::<[u64; 5]>(bk, "[u64;5]", lg, |i| [i as u64, h(i), 0, 1, 2]);
+        }
+        if lg <= 6 {
+            // elements of BIG_T_SIZE bytes and one word less
+            check_perm::<[u64; 2048]>(bk, "[u64;2048]", lg, |i| {
+                let mut a = [0u64; 2048];
+                a[0] = i as u64;
+                a[2047] = h(i);
+                a
+            });
+            check_perm::<[u64; 2047]>(bk, "[u64;2047]", lg, |i| {
+                let mut a = [0u64; 2047];
+                a[0] = i as u64;
+                a
+            });
+        }
+    }
+    // transposes
+    for (rows, cols) in [(1usize, 1usize), (1, 7), (7, 1), (3, 5), (16, 16), (17, 31), (128, 3), (3, 128), (200, 300), (5, 0)] {
+        let m: Vec<Vec<u32>> = (0..rows).map(|i| (0..cols).map(|j| (i * cols + j) as u32).collect()).collect();
+        bk.cases += 1;
+        match guarded(|| transpose(&m)) {
+            Ok(t) => {
+                let ok = t.len() == cols && (0..cols).all(|i| t[i].len() == rows && (0..rows).all(|j| t[i][j] == m[j][i]));
+                if !ok {
+                    bk.bad(json!({"what": "transpose", "rows": rows, "cols": cols}));
+                }
+            }
+            Err(msg) => bk.bad(json!({"what": "transpose", "rows": rows, "cols": cols, "panic": msg})),
+        }
+    }
+    // integer helpers against their definitions
+    for n in (0u64..5000).chain((1..64).flat_map(|k| [(1u64 << k) - 1, 1u64 << k, (1u64 << k) + 1])).chain([u64::MAX]) {
+        bk.cases += 1;
+        let c = log2_ceil(n as usize);
+        let okc = if n <= 1 { c == 0 } else { c <= 64 && (c == 64 || (1u128 << c) >= n as u128) && (1u128 << (c - 1)) < n as u128 };
+        let b = bits_u64(n);
+        let okb = if n == 0 { b == 0 } else { (n as u128) < (1u128 << b) && n >= (1u64 << (b - 1)) };
+        let s = guarded(|| log2_strict(n as usize));
+        let oks = match s {
+            Ok(v) => n.is_power_of_two() && (1u64 << v) == n,
+            Err(_) => !n.is_power_of_two(),
+        };
+        if !(okc && okb && oks) {
+            bk.bad(json!({"what": "int helpers", "n": n, "log2_ceil": c, "bits": b}));
+        }
+    }
+}
+
+/// `c15-bulk [--lgmax 13] [--reps 2] [--poly 3000] [--permlg 18] [--reflog path]`
+fn bulk(args: &[String]) -> anyhow::Result<()> {
+    let lg_max = opt_usize(args, "--lgmax", 13);
+    let reps = opt_usize(args, "--reps", 2);
+    let npoly = opt_usize(args, "--poly", 3000);
+    let permlg = opt_usize(args, "--permlg", 18);
+    let reflog = match opt(args, "--reflog") {
+        Some(p) => Some(NdJson::create(p)?),
+        None => None,
+    };
+    let mut bk = Bulk { cases: 0, nontrivial: 0, mism: vec![], digest: 0xcbf29ce484222325, reflog, refn: 0, fam_total: 0, fam_kept: 0, other_total: 0 };
+    let mut r = rng(16);
+    bulk_transforms(&mut bk, &mut r, lg_max, reps);
+    let transform_digest = bk.digest;
+    bulk_poly(&mut bk, &mut r, npoly);
+    bulk_perms(&mut bk, permlg);
+    let reflog_events = bk.reflog.take().map(|l| l.finish()).unwrap_or(0);
+    emit(&json!({"kind": "c15-bulk", "cases": bk.cases, "nontrivial": bk.nontrivial, "mismatches": bk.mism, "mismatches_defect_families": bk.fam_total, "mismatches_other": bk.other_total,
+                 "transform_digest": format!("{:016x}", transform_digest), "reference_ops": bk.refn, "reflog_events": reflog_events,
+                 "packed_width": <<F as Packable>::Packing as PackedField>::WIDTH}));
+    Ok(())
+}
+
+fn main() -> std::process::ExitCode {
+    vh::util::run_main(|cmd, rest| match cmd {
+        "c15-record" => record(rest),
+        "c15-bulk" => bulk(rest),
         other => Err(anyhow::anyhow!("unknown command {other}")),
     })
 }
